@@ -7,6 +7,8 @@
 import YashModel.Fnmatch.ErrorLemmas
 import YashModel.Fnmatch.TableLemmas
 import YashModel.Fnmatch.WordLemmas
+import YashModel.Fnmatch.CaseErrorLemmas
+import YashModel.Fnmatch.InnerLemmas
 import YashModel.Fnmatch.DecisionLemmas
 import YashModel.Generated.FnmatchDecisions
 
@@ -932,5 +934,116 @@ theorem literal_path_tables_agree :
       intro cfg dot text
       rcases cfg with ⟨ab, ae, lp, sh⟩
       cases lp <;> cases dot <;> cases h : (text.head? == some '.') <;> simp [Pattern.at0, h]
+
+/-- ★ `BracketAtom::parse_inner`, the function model parser and Spec grammar share, characterised without recursion
+    (closing the item "the same function on both sides"): after a `[` inside a bracket expression an inner element is
+    read exactly when an unquoted `.`, `=` or `:` follows, and somewhere after it the SAME delimiter, unquoted,
+    directly before an unquoted `]`; its value is everything up to the FIRST such pair (quoted characters included,
+    as characters), the rest is what follows the pair, and the delimiter alone decides between collating symbol,
+    equivalence class and character class. -/
+theorem parseInner_spec (cs : List PatternChar) (a : BracketAtom) (r : List PatternChar) :
+    parseInner cs = some (a, r) ↔
+      ∃ d v, cs = .normal d :: (v ++ .normal d :: .normal ']' :: r) ∧
+        (∀ v' r', v ++ .normal d :: .normal ']' :: r = v' ++ .normal d :: .normal ']' :: r' → v.length ≤ v'.length) ∧
+        innerKind d (v.map PatternChar.charValue) = some a :=
+  Proofs.parseInner_spec cs a r
+
+/-- non-vacuity: `=a\=]=]x` — the quoted `=` does not close: the equivalence class `a=]`, rest `x`; `.a:]` is nothing -/
+example :
+    parseInner [.normal '=', .normal 'a', .literal '=', .normal ']', .normal '=', .normal ']', .normal 'x']
+      = some (.equiv ['a', '=', ']'], [.normal 'x']) ∧
+    parseInner [.normal '.', .normal 'a', .normal ':', .normal ']'] = none := by decide
+
+/-- ★ ast/parse.rs gives a meaning to exactly the unquoted characters the model's parser tests for (re-extracted per
+    function on every run): outside that list an unquoted character is an ordinary character at the top level, and
+    cannot open an inner bracket element. -/
+theorem parser_specials_agree :
+    Generated.FnmatchDecisions.parserSpecials =
+      [("parse", ['!', '*', '-', '?', '[', ']', '^']), ("parse_inner", ['.', ':', '=', ']'])] ∧
+    (∀ l, Generated.FnmatchDecisions.parserSpecials.lookup "parse" = some l → ∀ c, c ∉ l → ∀ t,
+      parseAtoms (.normal c :: t) = .char c :: parseAtoms t) ∧
+    (∀ l, Generated.FnmatchDecisions.parserSpecials.lookup "parse_inner" = some l → ∀ c, c ∉ l → ∀ t,
+      parseInner (.normal c :: t) = none) := by
+  refine ⟨by decide, ?_, ?_⟩
+  · intro l hl c hc t
+    have : l = ['!', '*', '-', '?', '[', ']', '^'] := by
+      have h : Generated.FnmatchDecisions.parserSpecials.lookup "parse" = some ['!', '*', '-', '?', '[', ']', '^'] := by decide
+      rw [h] at hl; exact (Option.some.inj hl).symm
+    subst this
+    simp only [List.mem_cons, List.not_mem_nil, or_false, not_or] at hc
+    rw [parseAtoms]
+    simp [hc.2.1, hc.2.2.2.1, hc.2.2.2.2.1, PatternChar.charValue]
+  · intro l hl c hc t
+    have : l = ['.', ':', '=', ']'] := by
+      have h : Generated.FnmatchDecisions.parserSpecials.lookup "parse_inner" = some ['.', ':', '=', ']'] := by decide
+      rw [h] at hl; exact (Option.some.inj hl).symm
+    subst this
+    simp only [List.mem_cons, List.not_mem_nil, or_false, not_or] at hc
+    simp [parseInner, hc.1, hc.2.1, hc.2.2.1]
+
+/-- ★ `apply_escapes` is modelled twice: `applyEscapesIdx` is the Rust loop as written (`for j in 1..chars.len()`,
+    `i = j - 1`, the test on `chars[i]`, the two assignments; loop header, test and assignments are re-extracted:
+    `decision_tables_agree`), `applyEscapes` the left-to-right recursion every other theorem speaks about.  They are
+    the same function on every sequence — in particular the loop never looks at the last character as `chars[i]`
+    (a trailing backslash stays what it was) and a character quoted by its predecessor no longer escapes its successor. -/
+theorem applyEscapes_is_index_loop (cs : List AttrChar) : applyEscapesIdx cs = applyEscapes cs :=
+  applyEscapesIdx_eq cs
+
+/-- non-vacuity: `\\\\\\` + `x` (three unquoted backslashes from an expansion, then `x`): the first quotes the second,
+    the third quotes `x` -/
+example :
+    let c (v : Char) : AttrChar := { value := v, isQuoted := false, isQuoting := false }
+    (applyEscapesIdx [c '\\', c '\\', c '\\', c 'x']).map (fun a => (a.isQuoted, a.isQuoting)) =
+      [(false, true), (true, false), (false, true), (true, false)] ∧
+    (applyEscapesIdx [c 'a', c '\\']).map (fun a => (a.isQuoted, a.isQuoting)) = [(false, false), (false, false)] := by
+  decide
+
+/-- ★ `case` when expansions of alternatives can fail (case.rs: `expand_word_attr(..).await?` inside `matches`,
+    `Err(error) => return error.handle(env)` in `execute`) — was: compared in the run only.  (1) `matches`: a match
+    among the alternatives BEFORE the first failing one wins (later alternatives are not expanded); otherwise the
+    failure propagates if there is one; otherwise no match.  (2) `execute`: the bodies run before an abort are the first
+    bodies of the error-free reading over the alternatives actually reached (`reachedAlts`), and a run that does not
+    abort IS that reading — in particular an item entered by `;&` expands none of its patterns.  (A `continue` in place
+    of the `?`, or a `return Ok(false)`, breaks (1).) -/
+theorem caseExecE_spec (subj : List Char) :
+    (∀ alts : List (Option (List PatternChar)),
+      itemMatchesE subj alts =
+        if itemMatches subj (reachedAlts alts) then some true
+        else if alts.any Option.isNone then none else some false) ∧
+    (∀ (items : List (List (Option (List PatternChar)) × CaseCont)) (falling : Bool) (i : Nat),
+      (caseExecEGo subj falling i items).1 <+:
+        caseExecGo subj falling i (items.map fun it => (reachedAlts it.1, it.2)) ∧
+      ((caseExecEGo subj falling i items).2 = false →
+        (caseExecEGo subj falling i items).1 =
+          caseExecGo subj falling i (items.map fun it => (reachedAlts it.1, it.2)))) :=
+  ⟨Proofs.itemMatchesE_spec subj, fun items => Proofs.caseExecEGo_spec subj items⟩
+
+/-- non-vacuity: `case a in (a|${u?}) 1 ;& (${u?}) 2 ;; esac` runs both bodies without an abort; with the failing
+    alternative first it aborts before any body; `(b|${u?}) 1 ;; (a) 2` aborts too, the error-free reading would run 2 -/
+example :
+    let a : List PatternChar := [.normal 'a']
+    let b : List PatternChar := [.normal 'b']
+    caseExecEGo ['a'] false 0 [([some a, none], .fallThrough), ([none], .brk)] = ([0, 1], false) ∧
+    caseExecEGo ['a'] false 0 [([none, some a], .brk)] = ([], true) ∧
+    caseExecEGo ['a'] false 0 [([some b, none], .brk), ([some a], .brk)] = ([], true) ∧
+    caseExecGo ['a'] false 0 [(reachedAlts [some b, none], .brk), (reachedAlts [some a], .brk)] = [1] := by
+  refine ⟨?_, ?_, ?_, ?_⟩ <;>
+    simp [caseExecEGo, caseExecGo, itemMatchesE, itemMatches, reachedAlts, Pattern.parse, parseAtoms,
+      PatternChar.charValue] <;> decide
+
+/-- ★ The stand-in of the extension round is an instance of the word model: `shellWord q p` — the attributed characters
+    assumed for `"$q"$p` — is what `PWord.expand` yields for the word `"${N}"${M}` with the parameters set to `q` and
+    `p`; so `shell_word_chars`, `quoted_word_matches_only_itself`, `trimApplyValue_correct` speak about a word of the
+    transcribed expansion, not about a separately assumed list. -/
+theorem shellWord_is_word (q p : List Char) :
+    shellWord q p = wordAttrs (.cons (.dq (.cons (.param q) .nil)) (.cons (.unq (.param p)) .nil)) ∧
+    specWordChars (.cons (.dq (.cons (.param q) .nil)) (.cons (.unq (.param p)) .nil)) =
+      q.map .literal ++ escapeChars p := by
+  constructor
+  · simp [shellWord, wordAttrs, PWord.expand, PWordUnit.expand, PText.expand, PTextUnit.expand, quoteMark,
+      pQuoteChar, pSetQuoted, PAttrChar.reduce, Function.comp_def]
+    rfl
+  · simp only [specWordChars, PWord.marks, PWordUnit.marks, PText.marks, PTextUnit.marks, List.append_nil]
+    rw [escapeMarked_quoted_prefix, escapeMarked_unquoted]
 
 end YashModel.Fnmatch
